@@ -89,8 +89,8 @@ theorem removeCol_of_mem {x : String} {p : Pat} : ∀ {cols : List (String × Pa
 
 /-! ### `Good`: what the induction over `compile_rows` carries -/
 
-def Good (S : Sig) (rec : Nat → List (Row β) → M (DT β × Nat)) : Prop :=
-  ∀ n rows t n', rec n rows = .ok (t, n') → n ≤ n' ∧ SoundAt S n n' rows t
+def Good (S : Sig) (rec : Nat → List (Row β) → Option (M (DT β × Nat))) : Prop :=
+  ∀ n rows t n', rec n rows = some (.ok (t, n')) → n ≤ n' ∧ SoundAt S n n' rows t
 
 theorem SoundAt.mono {S : Sig} {a b a' b' : Nat} {rows : List (Row β)} {t : DT β}
     (h : SoundAt S a b rows t) (ha : a' ≤ a) (hb : b ≤ b') : SoundAt S a' b' rows t :=
@@ -103,9 +103,9 @@ theorem All2.imp {α γ : Type} {R R' : α → γ → Prop} (h : ∀ a b, R a b 
   | nil => exact .nil
   | cons hab _ ih => exact .cons (h _ _ hab) ih
 
-theorem compileSeq_good {S : Sig} {rec : Nat → List (Row β) → M (DT β × Nat)} (hrec : Good S rec) :
+theorem compileSeq_good {S : Sig} {rec : Nat → List (Row β) → Option (M (DT β × Nat))} (hrec : Good S rec) :
     ∀ (subs : List (List (Row β))) (n : Nat) (ts : List (DT β)) (n' : Nat),
-      compileSeq rec n subs = .ok (ts, n') → n ≤ n' ∧ All2 (SoundAt S n n') subs ts := by
+      compileSeq rec n subs = some (.ok (ts, n')) → n ≤ n' ∧ All2 (SoundAt S n n') subs ts := by
   intro subs
   induction subs with
   | nil =>
@@ -118,8 +118,10 @@ theorem compileSeq_good {S : Sig} {rec : Nat → List (Row β) → M (DT β × N
     simp only [compileSeq] at h
     split at h
     · cases h
+    · cases h
     · rename_i r hr
       split at h
+      · cases h
       · cases h
       · rename_i q hq
         cases h
@@ -693,6 +695,7 @@ theorem compileRows_good (S : Sig) (hinj : ∀ i j, S.gen i = S.gen j → i = j)
           · cases h
           · rename_i pl hpl
             split at h
+            · cases h
             · cases h
             · rename_i q hq
               cases h
